@@ -1345,6 +1345,19 @@ func (c *c11Reg) replay(t *testing.T, path string) {
 				}
 			}
 			c.probeLive("processor", line)
+		case "procmsg":
+			plain, err := regprocessor.NewVerifProcessor(c.sender, c.m, bytes.Repeat([]byte{7}, 32), false)
+			if err != nil {
+				continue
+			}
+			if p[1] == "nil" {
+				c.c2swCase(c.proc, nil, nil, pb.RegistrationSource_API, "replay", line, true)
+				c.bdreqCase(plain, nil, "replay", line)
+			} else if p[1] != "oddkey" && p[1] != "section-end" {
+				for i := 0; i < 12; i++ { // the client address and the channel are drawn per run
+					c.msgOne(plain, unhex(p[1]), "replay")
+				}
+			}
 		case "dns":
 			if len(p) >= 3 {
 				c.feedChild(t, unhex(p[2]), [][]byte{unhex(p[1])})
@@ -1394,6 +1407,7 @@ func TestVerifC11Registrar(t *testing.T) {
 	c.httpTable()
 	c.remoteAddrs()
 	c.processor()
+	c.msgLines()
 	c.histories()
 	c.parsers()
 	c.dnsDirect()
